@@ -990,6 +990,82 @@ func (m *Model) ruleExpCallback(r *Results, rule string) {
 	if !done {
 		r.undecided(rule, "d / timer callback", "-", "cannot find the function that expires documents and re-arms")
 	}
+	// the re-arm from the database's minimum deadline depends only on "there is a deadline" (min > 0)
+	// and on the query having succeeded - not on how the deadline compares with the current time:
+	// a deadline that passed while the bucket was closed must still arm the timer
+	nq := 0
+	errT := types.Universe.Lookup("error").Type()
+	for _, fn := range m.Funcs {
+		if !m.inPkg(fn) {
+			continue
+		}
+		m.eachCall(fn, func(qc ssa.CallInstruction) {
+			callee := qc.Common().StaticCallee()
+			if callee == nil || !m.inPkg(callee) {
+				return
+			}
+			isMin := false
+			for _, s := range m.Sites {
+				if s.Fn != callee {
+					continue
+				}
+				for _, v := range s.Variants {
+					if st := v.Stmt(); st != nil && st.Select != nil && len(st.Select.Cols) == 1 && isAgg(st.Select.Cols[0].Expr, "min", "exp") {
+						isMin = true
+					}
+				}
+			}
+			if !isMin || qc.Value() == nil {
+				return
+			}
+			fromMin := func(v ssa.Value) bool {
+				v = stripConv(v)
+				if ex, ok := v.(*ssa.Extract); ok && ex.Tuple == ssa.Value(qc.Value()) {
+					return true
+				}
+				if phi, ok := v.(*ssa.Phi); ok {
+					for _, e := range phi.Edges {
+						if ex, ok := stripConv(e).(*ssa.Extract); ok && ex.Tuple == ssa.Value(qc.Value()) {
+							return true
+						}
+					}
+				}
+				return v == ssa.Value(qc.Value())
+			}
+			m.eachCall(fn, func(ac ssa.CallInstruction) {
+				if ac == qc {
+					return
+				}
+				uses := false
+				for _, a := range ac.Common().Args {
+					if fromMin(a) && !types.Identical(a.Type(), errT) {
+						uses = true
+					}
+				}
+				if !uses {
+					return
+				}
+				nq++
+				bad := ""
+				for _, ct := range controllingConds(fn, ac.Block()) {
+					cd := condOf(ct.If)
+					if cd.Y == nil {
+						continue
+					}
+					if types.Identical(cd.X.Type(), errT) || types.Identical(cd.Y.Type(), errT) {
+						continue
+					}
+					if fromMin(cd.X) && !isZeroConst(cd.Y) || fromMin(cd.Y) && !isZeroConst(cd.X) {
+						bad = m.instrPos(ct.If)
+					}
+				}
+				r.check(bad == "", rule, "d / "+m.declName(fn)+" / re-arm from the minimum deadline", m.instrPos(ac), "the timer is armed whenever the database holds a deadline (min > 0)", "the timer is armed from the database's minimum deadline only if that deadline passes a further comparison (at "+bad+"): a deadline that is already due (e.g. it passed while the bucket was closed) never arms the timer, and the documents stay readable")
+			})
+		})
+	}
+	if nq == 0 {
+		r.undecided(rule, "d / re-arm from the minimum deadline", "-", "no function arms the timer with the result of the minimum-expiry query")
+	}
 }
 
 func (m *Model) ruleExpOffset(r *Results, rule string) {
